@@ -1181,6 +1181,60 @@ pub fn generate(out: &mut Out, tier: &str, seed: u64) {
         emit(out, l(vec![a(2), a(n), a(mode)]), "deep_nesting_child_process");
     }
 
+    // 4b. long queries with 2-, 3- and 4-byte characters at every byte alignment: error paths that
+    // quote or cut the remaining query text by byte count must stay on character boundaries.
+    // {P} = 0..3 ASCII characters shifting everything behind it.
+    let long_templates = [
+        "SELECT ANNOTATION ?a WHERE DATA \"{P}sét\" \"{P}ключ\" = \"{P}日本語のテキスト 😀 données älter Größe\"; TEXT \"{P}naïve café 😀😀 字 ñandú\"; { SELECT TEXT ?t WHERE RESOURCE \"{P}ресурс-😀-字\" OFFSET 1 -2; }",
+        "@{P}été SELECT OPTIONAL TEXT ?t WHERE [ ID \"{P}идентификатор-😀\"; OR TEXT AS NOCASE \"{P}ÉLÉPHANT 象 🐘 слон\"; ] ANNOTATION AS METADATA RECURSIVE \"{P}注釈-é-😀\" OFFSET 0 -0; LIMIT 10 20;",
+        "ADD ANNOTATION ?n WITH ID \"{P}nœud-😀-узел\"; DATA \"{P}ensemble-é\" \"{P}clé-鍵\" \"{P}valeur 値 😀 значение\"; TARGET ?t OFFSET 3 -1; { SELECT TEXT ?t WHERE TEXT AS REGEX \"{P}é+😀*字?\"; }",
+        "SELECT DATA ?d WHERE VALUE != {P}ünquötéd-😀-值-значение-ohne-leerzeichen-ありがとう; DATASET {P}ensemble-données-😀-集合; KEY AS TARGET ?{P}clé😀;",
+    ];
+    let ins_chars = ['"', ';', ' ', '\\', 'é', '字', '😀', '\u{a0}', ']', '}'];
+    let nshift = 4;
+    for (ti, tpl) in long_templates.iter().enumerate() {
+        for k in 0..nshift {
+            if !thorough && ti >= 2 && k % 2 == 1 {
+                continue;
+            }
+            let q = tpl.replace("{P}", &"x".repeat(k));
+            emit(out, req_text(&q), "long_multibyte_query");
+            let idx: Vec<usize> = q.char_indices().map(|(i, _)| i).collect();
+            for &p in &idx {
+                let nxt = p + q[p..].chars().next().unwrap().len_utf8();
+                emit(out, req_text(&q[..p]), "long_multibyte_prefix");
+                emit(out, req_text(&format!("{}{}", &q[..p], &q[nxt..])), "long_multibyte_deletion");
+                let nins = if thorough { ins_chars.len() } else { 3 };
+                for j in 0..nins {
+                    let c = if thorough { ins_chars[j] } else { ins_chars[(p + j * 3 + k) % ins_chars.len()] };
+                    emit(out, req_text(&format!("{}{}{}", &q[..p], c, &q[p..])), "long_multibyte_insertion");
+                }
+            }
+        }
+    }
+    // unterminated strings and separator-free tokens of 30..60 bytes (and a few longer ones)
+    let fills: [&[char]; 6] = [&['é'], &['字'], &['😀'], &['a', 'é', '字', '😀'], &['😀', 'a', 'a', 'é'], &['ж', '字', 'b']];
+    let heads = ["SELECT ANNOTATION WHERE ID ", "SELECT ANNOTATION WHERE DATA s k = ", "SELECT ANNOTATION WHERE TEXT AS NOCASE ", "ADD ANNOTATION WITH DATA s ", "SELECT ANNOTATION WHERE RESOURCE r OFFSET 1 ", "SELECT ANNOTATION WHERE LIMIT ", "SELECT TEXT WHERE RELATION ?x "];
+    for head in heads {
+        for fill in fills.iter() {
+            for k in 0..nshift {
+                for open in ["\"", ""] {
+                    let mut nbytes = 26;
+                    while nbytes <= 70 {
+                        let mut body = "x".repeat(k);
+                        let mut i = 0;
+                        while body.len() < nbytes {
+                            body.push(fill[i % fill.len()]);
+                            i += 1;
+                        }
+                        emit(out, req_text(&format!("{}{}{}", head, open, body)), "unterminated_multibyte");
+                        nbytes += if thorough { 1 } else { 3 };
+                    }
+                }
+            }
+        }
+    }
+
     // 5. queries built through the public API
     let nb = if thorough { 60000 } else { 6000 };
     for i in 0..nb {
@@ -1190,6 +1244,6 @@ pub fn generate(out: &mut Out, tier: &str, seed: u64) {
     }
 }
 
-pub const RULE: &str = "Texts: every keyword (46) after every query head (12) with every operand tail (17); numeric literals with signs {'', -, +, --, -+} and 0..22 digits (and range boundaries) in every numeric position (VALUE/DATA operators, list items, LIMIT, OFFSET cursors, assignments); every operator x every value surface; every identifier of a 38-string pool (reserved words, ?-prefixed, quotes, backslashes, separators, multi-byte) quoted and unquoted in every argument position; seeded grammar-derived queries (SELECT/ADD/DELETE, attributes, qualifiers, offsets, unions, sub-queries, varied white space incl. multi-byte) with their truncation at every character and single-character substitutions/insertions/deletions from a 27-character special set (braces, brackets, pipe, quote, backslash, ?, @, ASCII and multi-byte white space, NUL, non-BMP); exhaustive position x character edits of fixed queries; random strings over keywords and special characters. Built queries: random trees over all 21 parser-level constraint variants, all data operators, nested unions and sub-queries, built with Query::new/with_constraint/with_subquery, a quarter of them with strings from the pool (known classes). Each case: outcome class and tree of Query::parse, TryFrom, printed text, and tree + text of parsing/printing the printed text. Non-trivial: parsed (or built), printed and parsed back. distinct = distinct request lines.";
+pub const RULE: &str = "Texts: every keyword (46) after every query head (12) with every operand tail (17); numeric literals with signs {'', -, +, --, -+} and 0..22 digits (and range boundaries) in every numeric position (VALUE/DATA operators, list items, LIMIT, OFFSET cursors, assignments); every operator x every value surface; every identifier of a 38-string pool (reserved words, ?-prefixed, quotes, backslashes, separators, multi-byte) quoted and unquoted in every argument position; seeded grammar-derived queries (SELECT/ADD/DELETE, attributes, qualifiers, offsets, unions, sub-queries, varied white space incl. multi-byte) with their truncation at every character and single-character substitutions/insertions/deletions from a 27-character special set (braces, brackets, pipe, quote, backslash, ?, @, ASCII and multi-byte white space, NUL, non-BMP); exhaustive position x character edits of fixed queries; random strings over keywords and special characters; four long queries with 2-, 3- and 4-byte characters shifted by 0..3 ASCII characters, each with its truncation at every character, every single-character deletion and insertions of quote/separator/multi-byte characters at every position; unterminated quoted strings and separator-free tokens of 26..70 bytes over six multi-byte fill patterns x shift 0..3 behind seven argument positions (error paths that cut the remaining text by byte count). Built queries: random trees over all 21 parser-level constraint variants, all data operators, nested unions and sub-queries, built with Query::new/with_constraint/with_subquery, a quarter of them with strings from the pool (known classes). Each case: outcome class and tree of Query::parse, TryFrom, printed text, and tree + text of parsing/printing the printed text. Non-trivial: parsed (or built), printed and parsed back. distinct = distinct request lines.";
 
 pub const EXHAUSTIVE: bool = false;
